@@ -61,6 +61,9 @@ def run(chk: Check) -> None:
     # "... with exactly that exception": nothing transitions again (no pending kill / pause action runs) once the failure made the process terminal (shared with C01)
     from .c01 import atom_terminal_guard
     atom_terminal_guard(chk)
+    # "... and stepping returns normally": a step blocked in the state that the failure abandons is released (shared with C02)
+    from .c02 import inflight_step_released
+    inflight_step_released(chk)
     # EXCEPTED must be reachable from every live state, else the failure itself is refused
     prog = chk.prog
     for lbl in common.LIVE:
